@@ -602,7 +602,8 @@ impl Engine for JsonEngine {
             });
         }
         let sched = if sync { Sched::swarm(&mut rng, 400) } else { Sched::op_order(rng.next_u64()) };
-        json!({"engine": "json", "prop": g.prop, "mode": g.mode, "cfg": {"opts": opts, "threads": nthreads}, "steps": steps, "sched": serde_json::to_value(&sched).unwrap()})
+        let sink = if rng.chance(1, 5) { json!({"k": "sink", "id": 0, "short": *rng.pick(&[1u64, 7, 16, 64])}) } else { json!({"k": "sink", "id": 0}) };
+        json!({"engine": "json", "prop": g.prop, "mode": g.mode, "cfg": {"opts": opts, "threads": nthreads, "sink": sink}, "steps": steps, "sched": serde_json::to_value(&sched).unwrap()})
     }
 
     fn classify_known(&self, plan: &Value, res: &RunResult) -> Option<String> {
@@ -623,7 +624,8 @@ impl Engine for JsonEngine {
         let sync = sched.sync;
         let cfg2 = cfg.clone();
         let body = move || {
-            let w = build_writer(&json!({"k": "sink", "id": 0}));
+            // a fifth of the runs write to a sink that takes only a few bytes per call (the layer must offer the rest again)
+            let w = build_writer(&cfg2["sink"]);
             let layer = build_fmt_layer(&cfg2["opts"], w);
             let d = Dispatch::new(Registry::default().with(layer));
             let indexed: Vec<(usize, usize, Value)> = steps.iter().enumerate().map(|(gi, s)| (gi, (s["t"].as_u64().unwrap_or(0) as usize) % nthreads, s.clone())).collect();
